@@ -11,7 +11,7 @@ from reactivex.notification import OnCompleted, OnError, OnNext
 from .. import registry as R
 from ..common import UnitResult, case_rng, chunks, show, strict
 from ..single import SUB_AT, cut_after_terminal, make_input, match_expected, run_single, run_twice, show_timed
-from ..vlab import SrcErr, gen_timeline, show_timeline
+from ..vlab import FalsySrcErr, SrcErr, gen_timeline, show_timeline
 
 ID = "C05"
 LEVEL = "exploration"
@@ -94,6 +94,9 @@ def gen_case(r: Any, idx: int) -> dict:
                 v = OnNext(v) if c < 0.75 else (OnCompleted() if c < 0.88 else OnError(SrcErr("inner@%s" % t)))
             new.append((t, k, v))
         tl = new
+    if op == "materialize" and tl and tl[-1][1] == "E" and r.random() < 0.5:
+        # the operator that turns the error into a value: half of the failing timelines end with a falsy error object
+        tl = tl[:-1] + [(tl[-1][0], "E", FalsySrcErr("src@%s" % tl[-1][0]))]
     return {"op": op, "P": P, "tl": tl, "hot": hot, "domain": domain}
 
 
